@@ -7,7 +7,7 @@ from . import decomp_common as dc
 from . import score_common as sc
 from .core import Prop
 
-RELS = ["perm", "replicate", "relabel", "columns", "alias", "explicit"]
+RELS = ["perm", "replicate", "relabel", "columns", "alias", "explicit", "plain"]
 
 
 class C07(Prop):
@@ -20,7 +20,7 @@ class C07(Prop):
         "repeated rows (mean and expectile scores); 'relabel' = forecasts replaced by a strictly increasing transformation "
         "(2x+1, x^3, exp(x/4), rank) -> discrimination and uncertainty unchanged; 'columns' = each column of a 2-3 column matrix "
         "vs the same column alone; 'alias' = functional 'median' vs 'quantile' at 0.5; 'explicit' = explicit vs inferred "
-        "functional/level. Outcome classes must agree too (an error for one arrangement and a table for the other is a "
+        "functional/level; 'plain' = the score wrapped in a plain callable (no attributes) with functional / level explicit or missing.  Outcome classes must agree too (an error for one arrangement and a table for the other is a "
         "violation). Non-trivial = non-constant y and forecasts with a tie or an inversion."
     )
     assumptions = ["transformations are chosen to keep the forecasts in the score's domain"]
@@ -50,6 +50,12 @@ class C07(Prop):
             if rel == "replicate":
                 w = [float(rng.randint(1, 3)) for _ in range(n)]
             c = {"stream": rel, **cfg, "y": ys, "cols": cols, "w": w}
+            if rel == "plain":
+                # the score as a plain callable; functional / level passed explicitly, or not (then: ValueError where they are needed)
+                mode = rng.choice(["both", "both", "functional", "level", "none"])
+                c["plain"] = True
+                c["functional"] = f if mode in ("both", "functional") else None
+                c["level_given"] = cfg["level"] if mode in ("both", "level") else None
             if rel == "columns":
                 c["colnames"] = dc.gen_colnames(rng, ncols) if ncols <= 3 else None
                 if c["colnames"] is None and rng.random() < 0.35:
@@ -119,6 +125,13 @@ class C07(Prop):
             else:
                 out["other"] = dc.call_decompose(case, functional="median")
                 out["third"] = dc.call_decompose(case, functional="quantile", level_given=0.5)
+        elif rel == "plain":
+            f = dc.functional_of(case)
+            if case["functional"] is not None and (case["level_given"] is not None or f in ("mean", "median")):
+                # everything decompose needs is passed explicitly: the callable must be treated like the score object itself
+                out["other"] = dc.call_decompose({**case, "plain": False, "functional": None, "level_given": None})
+            elif "rows" in base:
+                out["other"] = {"err": "ValueError", "msg": "expected: functional / level cannot be read from a plain callable"}
         elif rel == "explicit":
             f = dc.functional_of(case)
             kw = {"functional": f}
@@ -165,7 +178,8 @@ class C07(Prop):
                 for i in idx:
                     if math.isnan(ra[i]) or math.isnan(rb[i]) or abs(ra[i] - rb[i]) > tol:
                         what = {"perm": "row permutation", "replicate": "integer weights vs repeated rows", "relabel": f"strictly increasing map '{case.get('map')}' of the forecasts",
-                                "columns": "column alone vs in the matrix", "alias": f"alias ({tag})", "explicit": "explicit vs inferred functional"}[rel]
+                                "columns": "column alone vs in the matrix", "alias": f"alias ({tag})", "explicit": "explicit vs inferred functional",
+                                "plain": "plain callable with explicit functional / level vs the score object"}[rel]
                         return f"{what} changes {names[i]} of column {k}: {ra[i]!r} vs {rb[i]!r}"
         return None
 
